@@ -269,8 +269,8 @@ Section Inv.
     destruct (Hs SB) as (B1 & B2 & B3 & B4 & B5 & B6 & B7 & B8). cbn [net_get] in *.
     unfold INV.
     split; [eapply EP_same; eassumption|]. split; [eapply EP_same; eassumption|].
-    split; [unfold DIR in *; rewrite A7, A3, B7; exact HDab|].
-    split; [unfold DIR in *; rewrite B7, B3, A7; exact HDba|].
+    split; [unfold DIR in *; rewrite A7, A3, B7, B4; exact HDab|].
+    split; [unfold DIR in *; rewrite B7, B3, A7, A4; exact HDba|].
     split; [unfold ROLES, dead_tx in *; rewrite A1, A7; exact Hroles|].
     intros [|]; cbn [net_get]; [rewrite A7 | rewrite B7];
       (eapply incl_tran; [eassumption|]); [apply (Hchan SA) | apply (Hchan SB)].
@@ -504,11 +504,13 @@ Section Inv.
       split; [exact T3|]. unfold kl. rewrite Hn. split; [lia|]. split; [discriminate | left; reflexivity]. }
     assert (HDIR : forall S F ex gtx grx ey gty gry,
               ep_sent ex = [] -> ep_sent ey = [] -> (forall k, ~ g_have gry k) -> tx_blank gtx ->
+              ep_read ey = [] ->
               DIR S F ex (mkEg gtx grx None None 0) ey (mkEg gty gry None None 0)).
-    { intros S F ex gtx grx ey gty gry E1 E2 Hh (_ & _ & T3). unfold DIR. cbn [eg_tx eg_rx eg_J eg_K eg_R].
-      rewrite E1, E2. split; [intros p []|]. split; [discriminate|]. split; [intros k Hk; destruct (Hh k Hk)|].
+    { intros S F ex gtx grx ey gty gry E1 E2 Hh (_ & _ & T3) E4. unfold DIR. cbn [eg_tx eg_rx eg_J eg_K eg_R].
+      rewrite E1, E2, E4. split; [intros p []|]. split; [discriminate|]. split; [intros k Hk; destruct (Hh k Hk)|].
       split; [reflexivity|]. split; [rewrite (una_syn gtx T3); lia|].
-      split; [pose proof (TcpRecvBase.l_len_nonneg (ep_written ex)); lia | intros p []]. }
+      pose proof (TcpRecvBase.l_len_nonneg (ep_written ex)).
+      split; [lia|]. split; [intros p []|]. change (l_len []) with 0. split; [lia | intros j Hj; lia]. }
     unfold INV. cbn [n_a n_b].
     split; [apply HEP; assumption|]. split; [apply HEP; assumption|].
     split; [apply HDIR; assumption|]. split; [apply HDIR; assumption|].
@@ -621,5 +623,57 @@ Section Inv.
       destruct (IH st1 Hr1 Hage1 Sa Fa Sb Fb Cpa1 Cpb1) as (ga & gb & Hinv).
       destruct (INV_step _ _ _ _ _ _ _ _ _ _ Hinv Hs Hagev Cpa Cpb) as (ga' & gb' & Hinv' & _).
       exists ga', gb'. exact Hinv'.
+  Qed.
+
+  (* ------------------------------------------------------------------------------------ *)
+  (* the end-to-end statements                                                             *)
+  (* ------------------------------------------------------------------------------------ *)
+  Lemma prefix_of_znth (a b : list Z) :
+    l_len a <= l_len b -> (forall j, 0 <= j < l_len a -> rznth a j = rznth b j) -> prefix a b.
+  Proof.
+    rewrite !TcpRecvBase.l_len_spec. intros Hl Hj. exists (skipn (length a) b).
+    rewrite <- (firstn_skipn (length a) b) at 1. f_equal.
+    apply (nth_ext _ _ 0 0).
+    - rewrite firstn_length. lia.
+    - intros n Hn. rewrite firstn_length in Hn.
+      rewrite nth_firstn_lt by lia.
+      specialize (Hj (Z.of_nat n) ltac:(lia)).
+      unfold rznth in Hj. rewrite Nat2Z.id in Hj. symmetry. exact Hj.
+  Qed.
+
+  Lemma prefix_same_len {A} (a b : list A) : prefix a b -> (length b <= length a)%nat -> a = b.
+  Proof.
+    intros (c & ->) Hl. rewrite app_length in Hl. destruct c; [rewrite app_nil_r; reflexivity|].
+    cbn in Hl. lia.
+  Qed.
+
+  (* one direction, from the invariant instantiated with the oracle read off the state itself *)
+  Lemma e2e_dir ex gx ey gy :
+    EP (oracle_S (ep_written ex)) (oracle_F (ep_written ex) (ep_closed ex)) ey gy ->
+    DIR (oracle_S (ep_written ex)) (oracle_F (ep_written ex) (ep_closed ex)) ex gx ey gy ->
+    prefix (ep_read ey) (ep_written ex) /\
+    (ep_finished ey = true -> ep_read ey = ep_written ex).
+  Proof.
+    intros (_ & _ & _ & _ & (_ & _ & Hfin) & _) (_ & _ & _ & _ & _ & _ & _ & (Hl & Hj)).
+    assert (Hp : prefix (ep_read ey) (ep_written ex)) by (apply prefix_of_znth; [exact Hl | exact Hj]).
+    split; [exact Hp|]. intros Hf. destruct (Hfin Hf) as (m & HF & Hm).
+    apply prefix_same_len; [exact Hp|].
+    unfold oracle_F in HF. destruct (ep_closed ex); [|discriminate]. inversion HF; subst m.
+    rewrite !TcpRecvBase.l_len_spec in Hm. lia.
+  Qed.
+
+  Theorem e2e_reach ca cb st0 evs st :
+    cfg_ok ca -> cfg_ok cb -> net_init ca cb = Ok st0 ->
+    net_run st0 evs = Ok st -> run_age st0 evs ->
+    (prefix (ep_read (n_b st)) (ep_written (n_a st)) /\
+     (ep_finished (n_b st) = true -> ep_read (n_b st) = ep_written (n_a st))) /\
+    (prefix (ep_read (n_a st)) (ep_written (n_b st)) /\
+     (ep_finished (n_a st) = true -> ep_read (n_a st) = ep_written (n_b st))).
+  Proof.
+    intros Hca Hcb Hinit Hrun Hage.
+    destruct (INV_reach ca cb st0 evs st Hca Hcb Hinit Hrun Hage _ _ _ _
+                (compat_oracle (n_a st)) (compat_oracle (n_b st)))
+      as (ga & gb & (HEPa & HEPb & HDab & HDba & _)).
+    split; [eapply e2e_dir; eassumption | eapply e2e_dir; eassumption].
   Qed.
 End Inv.
